@@ -20,6 +20,7 @@ pub fn tree_case(seed: u64, i: u64) -> Expression {
             let s = mk_size(3 + r.below(4), u64::MAX >> r.below(20));
             t(Test::Size(gen_cmp(r, s)))
         }
+        4 => gen_odd_leaf(r), // degenerate values only a hand-built tree carries
         _ => gen_leaf(r, 30),
     })
 }
